@@ -68,11 +68,12 @@ def trace_list(case, graph, pos):
         near = [(p[0] + 0.13, p[1] - 0.11) for p in P]
         n = len(P) - 1
         return [[near[min(i, n)] for i in t] for t in [(0, 2, 4), (0, 4, 1), (4, 2, 0), (0, 4)]] + [[near[0], al.FAR[pos], near[n]]]
-    obs = [al.OBS[pos][1], al.OBS[pos][2], al.OBS[pos][4]]
-    out = [list(t) for T in (1, 2) for t in itertools.product(obs, repeat=T)]
-    out += [[obs[0]] + list(t) for t in itertools.product(obs, repeat=2)]
+    o = al.OBS[pos]
+    out = [list(t) for T in (1, 2) for t in itertools.product(o[:5], repeat=T)]
+    out += [list(t) for t in itertools.product([o[0], o[2], o[3]], repeat=3)]
+    out += [[o[1], o[4], o[2]], [o[4], o[1], o[2]], [o[1], o[2], o[4]], [o[1], o[1], o[2]], [o[2], o[1], o[1]]]
     if case.get("tier") == "thorough":
-        out += [[obs[1]] + list(t) for t in itertools.product(obs, repeat=2)] + [[obs[2]] + list(t) for t in itertools.product(obs, repeat=2)]
+        out += [list(t) for t in itertools.product([o[1], o[2], o[4]], repeat=3)]
     return out
 
 
